@@ -1,10 +1,447 @@
+/-
+  Proofs/Compare.lean — proofs for C19 (alignment comparison): dictionary keys, partition of keys,
+  bounded measures, reflexivity, swap symmetry.  Helpers live in `Coma.Proofs.Compare`.
+-/
 import Props.Defs
-namespace Coma.Proofs
+import Proofs.SortLemmas
+import Mathlib.Algebra.Order.Field.Rat
+import Mathlib.Tactic.Linarith
+import Mathlib.Tactic.Positivity
+
+namespace Coma.Proofs.Compare
 open Coma Coma.Spec
 
+/-! ### dictionaries -/
+
+abbrev keys (d : List (Key × BAl)) : List Key := d.map (·.1)
+
+theorem mem_keys_dictInsert (k : Key) (v : BAl) (d : List (Key × BAl)) (k' : Key) :
+    k' ∈ keys (dictInsert k v d) ↔ k' = k ∨ k' ∈ keys d := by
+  induction d with
+  | nil => simp [dictInsert]
+  | cons e t ih =>
+    obtain ⟨k0, v0⟩ := e
+    unfold dictInsert
+    by_cases h : k0 = k
+    · subst h; simp
+    · simp only [h, if_false, keys, List.map_cons, List.mem_cons] at ih ⊢
+      rw [ih]
+      constructor
+      · rintro (h | h | h) <;> simp [h]
+      · rintro (h | h | h) <;> simp [h]
+
+theorem nodup_dictInsert (k : Key) (v : BAl) (d : List (Key × BAl)) (h : (keys d).Nodup) :
+    (keys (dictInsert k v d)).Nodup := by
+  induction d with
+  | nil => simp [dictInsert]
+  | cons e t ih =>
+    obtain ⟨k0, v0⟩ := e
+    unfold dictInsert
+    simp only [keys, List.map_cons, List.nodup_cons] at h
+    by_cases hk : k0 = k
+    · subst hk; simpa using h
+    · simp only [hk, if_false, keys, List.map_cons, List.nodup_cons]
+      refine ⟨?_, ih h.2⟩
+      intro hm
+      rcases (mem_keys_dictInsert k v t k0).1 hm with h' | h'
+      · exact hk h'
+      · exact h.1 h'
+
+theorem foldl_dictInsert_spec (l : List BAl) (d : List (Key × BAl)) (hd : (keys d).Nodup) :
+    (keys (l.foldl (fun d a => dictInsert a.key a d) d)).Nodup ∧
+    ∀ k, k ∈ keys (l.foldl (fun d a => dictInsert a.key a d) d) ↔ (k ∈ keys d ∨ ∃ a ∈ l, a.key = k) := by
+  induction l generalizing d with
+  | nil => simp [hd]
+  | cons a t ih =>
+    simp only [List.foldl_cons]
+    obtain ⟨h1, h2⟩ := ih (dictInsert a.key a d) (nodup_dictInsert _ _ _ hd)
+    refine ⟨h1, fun k => ?_⟩
+    rw [h2, mem_keys_dictInsert]
+    simp only [List.mem_cons, exists_eq_or_imp]
+    constructor
+    · rintro ((h | h) | h)
+      · exact Or.inr (Or.inl h.symm)
+      · exact Or.inl h
+      · exact Or.inr (Or.inr h)
+    · rintro (h | h | h)
+      · exact Or.inl (Or.inr h)
+      · exact Or.inl (Or.inl h.symm)
+      · exact Or.inr h
+
+theorem toDict_spec (as : List BAl) :
+    (keys (toDict as)).Nodup ∧ ∀ k, k ∈ keys (toDict as) ↔ ∃ a ∈ as, a.key = k := by
+  obtain ⟨h1, h2⟩ := foldl_dictInsert_spec (isort (fun a => a.rid) (isort (fun a => a.qid) as)) [] (by simp)
+  refine ⟨h1, fun k => ?_⟩
+  unfold toDict
+  rw [h2]
+  simp [mem_isort]
+
+theorem dictGet?_isSome (d : List (Key × BAl)) (k : Key) : (dictGet? d k).isSome = (keys d).contains k := by
+  induction d with
+  | nil => simp [dictGet?]
+  | cons e t ih =>
+    obtain ⟨k0, v0⟩ := e
+    unfold dictGet? at ih ⊢
+    by_cases h : k0 = k
+    · subst h; simp
+    · have h' : ¬ k = k0 := fun e => h e.symm
+      simp only [List.find?_cons, h, decide_false, keys, List.map_cons, List.contains_cons] at ih ⊢
+      rw [ih]; simp [h']
+
+theorem dictGet?_isNone (d : List (Key × BAl)) (k : Key) : (dictGet? d k).isNone = !(keys d).contains k := by
+  rw [← dictGet?_isSome]; cases dictGet? d k <;> rfl
+
+theorem dictGet?_of_mem (d : List (Key × BAl)) (hd : (keys d).Nodup) (k : Key) (v : BAl) (h : (k, v) ∈ d) :
+    dictGet? d k = some v := by
+  induction d with
+  | nil => cases h
+  | cons e t ih =>
+    obtain ⟨k0, v0⟩ := e
+    simp only [keys, List.map_cons, List.nodup_cons] at hd
+    unfold dictGet? at ih ⊢
+    rcases List.mem_cons.1 h with h | h
+    · cases h; simp
+    · have : k0 ≠ k := by
+        rintro rfl
+        exact hd.1 (List.mem_map.2 ⟨(k0, v), h, rfl⟩)
+      simp only [List.find?_cons, this, decide_false]
+      exact ih hd.2 h
+
+theorem mem_of_dictGet? (d : List (Key × BAl)) (k : Key) (v : BAl) (h : dictGet? d k = some v) : (k, v) ∈ d := by
+  unfold dictGet? at h
+  cases hf : d.find? (fun e => e.1 = k) with
+  | none => simp [hf] at h
+  | some e =>
+    simp only [hf, Option.map_some, Option.some.injEq] at h
+    have h1 := List.mem_of_find?_eq_some hf
+    have h2 := List.find?_some hf
+    simp only [decide_eq_true_eq] at h2
+    obtain ⟨k0, v0⟩ := e
+    simp only at h h2; subst h; subst h2; exact h1
+
+/-! ### structure of `compareSets` -/
+
+def bothRows (flag : Bool) (M : List BPair → List BPair → Nat) (d1 d2 : List (Key × BAl)) : List RowCmp :=
+  d1.filterMap fun (k, a1) => (dictGet? d2 k).map fun a2 => compareRow flag M a1 a2
+
+def onlyRows (t : RowType) (d1 d2 : List (Key × BAl)) : List RowCmp :=
+  (d1.filter fun (k, _) => (dictGet? d2 k).isNone).map fun (k, _) =>
+    ({ type := t, key := k, diff1 := [], diff2 := [], cov1 := 0, cov2 := 0, ident := 0 } : RowCmp)
+
+def allRows (flag : Bool) (M : List BPair → List BPair → Nat) (as1 as2 : List BAl) : List RowCmp :=
+  bothRows flag M (toDict as1) (toDict as2) ++ onlyRows .firstOnly (toDict as1) (toDict as2) ++
+    onlyRows .secondOnly (toDict as2) (toDict as1)
+
+theorem rows_eq (flag M as1 as2) : (compareSets flag M as1 as2).rows = allRows flag M as1 as2 := rfl
+theorem overlapping_eq (flag M as1 as2) :
+    (compareSets flag M as1 as2).overlapping = ((allRows flag M as1 as2).filter RowCmp.overlapping).length := rfl
+theorem nonOverlapping_eq (flag M as1 as2) :
+    (compareSets flag M as1 as2).nonOverlapping =
+      ((allRows flag M as1 as2).filter fun r => r.type = .both && !r.overlapping).length := rfl
+theorem firstOnly_eq (flag M as1 as2) :
+    (compareSets flag M as1 as2).firstOnly = ((allRows flag M as1 as2).filter fun r => r.type = .firstOnly).length := rfl
+theorem secondOnly_eq (flag M as1 as2) :
+    (compareSets flag M as1 as2).secondOnly = ((allRows flag M as1 as2).filter fun r => r.type = .secondOnly).length := rfl
+
+theorem filter_eq_nil_of {α} (p : α → Bool) (l : List α) (h : ∀ x ∈ l, p x = false) : l.filter p = [] := by
+  rw [List.filter_eq_nil_iff]; intro x hx; simp [h x hx]
+
+theorem filter_eq_self_of {α} (p : α → Bool) (l : List α) (h : ∀ x ∈ l, p x = true) : l.filter p = l := by
+  rw [List.filter_eq_self]; exact h
+
+theorem bothRows_type {flag M d1 d2} : ∀ r ∈ bothRows flag M d1 d2, r.type = .both := by
+  intro r hr
+  simp only [bothRows, List.mem_filterMap] at hr
+  obtain ⟨⟨k, a1⟩, _, h⟩ := hr
+  cases hg : dictGet? d2 k with
+  | none => simp [hg] at h
+  | some a2 => simp [hg] at h; subst h; rfl
+
+theorem onlyRows_type {t d1 d2} : ∀ r ∈ onlyRows t d1 d2, r.type = t ∧ r.ident = 0 ∧ r.cov1 = 0 ∧ r.cov2 = 0 := by
+  intro r hr
+  simp only [onlyRows, List.mem_map] at hr
+  obtain ⟨⟨k, a1⟩, _, h⟩ := hr
+  subst h; simp
+
+theorem onlyRows_length (t d1 d2) : (onlyRows t d1 d2).length = ((keys d1).filter fun k => !(keys d2).contains k).length := by
+  simp only [onlyRows, List.length_map, keys, List.filter_map]
+  congr 1
+  apply List.filter_congr
+  intro ⟨k, a⟩ _
+  simp [dictGet?_isNone]
+
+theorem length_filterMap_eq {α β} (f : α → Option β) (l : List α) :
+    (l.filterMap f).length = (l.filter fun x => (f x).isSome).length := by
+  induction l with
+  | nil => rfl
+  | cons a t ih =>
+    simp only [List.filterMap_cons, List.filter_cons]
+    cases h : f a <;> simp [ih]
+
+theorem bothRows_length (flag M d1 d2) :
+    (bothRows flag M d1 d2).length = ((keys d1).filter fun k => (keys d2).contains k).length := by
+  simp only [bothRows, length_filterMap_eq, keys, List.filter_map, List.length_map]
+  congr 1
+  apply List.filter_congr
+  intro ⟨k, a⟩ _
+  simp [dictGet?_isSome, keys]
+
+theorem filter_not_add {α} (p : α → Bool) (l : List α) :
+    (l.filter p).length + (l.filter fun x => !p x).length = l.length := by
+  induction l with
+  | nil => rfl
+  | cons a t ih =>
+    simp only [List.filter_cons]
+    cases h : p a <;> simp <;> omega
+
+/-- the four counters in terms of the three blocks -/
+theorem counts (flag M as1 as2) :
+    let B := bothRows flag M (toDict as1) (toDict as2)
+    (compareSets flag M as1 as2).overlapping = (B.filter RowCmp.overlapping).length ∧
+    (compareSets flag M as1 as2).nonOverlapping = (B.filter fun r => !r.overlapping).length ∧
+    (compareSets flag M as1 as2).firstOnly = (onlyRows .firstOnly (toDict as1) (toDict as2)).length ∧
+    (compareSets flag M as1 as2).secondOnly = (onlyRows .secondOnly (toDict as2) (toDict as1)).length := by
+  intro B
+  have ho : ∀ t d1 d2, (onlyRows t d1 d2).filter RowCmp.overlapping = [] := by
+    intro t d1 d2
+    apply filter_eq_nil_of
+    intro r hr
+    simp [RowCmp.overlapping, (onlyRows_type r hr).2.1]
+  refine ⟨?_, ?_, ?_, ?_⟩
+  · rw [overlapping_eq, allRows, List.filter_append, List.filter_append, ho, ho]; simp [B]
+  · rw [nonOverlapping_eq, allRows, List.filter_append, List.filter_append,
+      filter_eq_nil_of _ (onlyRows .firstOnly _ _), filter_eq_nil_of _ (onlyRows .secondOnly _ _)]
+    · simp only [List.append_nil]
+      congr 1
+      apply List.filter_congr
+      intro r hr
+      simp [bothRows_type r hr]
+    · intro r hr; simp [(onlyRows_type r hr).1]
+    · intro r hr; simp [(onlyRows_type r hr).1]
+  · rw [firstOnly_eq, allRows, List.filter_append, List.filter_append,
+      filter_eq_nil_of _ (bothRows _ _ _ _), filter_eq_nil_of _ (onlyRows .secondOnly _ _),
+      filter_eq_self_of _ (onlyRows .firstOnly _ _)]
+    · simp
+    · intro r hr; simp [(onlyRows_type r hr).1]
+    · intro r hr; simp [(onlyRows_type r hr).1]
+    · intro r hr; simp [bothRows_type r hr]
+  · rw [secondOnly_eq, allRows, List.filter_append, List.filter_append,
+      filter_eq_nil_of _ (bothRows _ _ _ _), filter_eq_nil_of _ (onlyRows .firstOnly _ _),
+      filter_eq_self_of _ (onlyRows .secondOnly _ _)]
+    · simp
+    · intro r hr; simp [(onlyRows_type r hr).1]
+    · intro r hr; simp [(onlyRows_type r hr).1]
+    · intro r hr; simp [bothRows_type r hr]
+
+/-! ### measures -/
+
+theorem dedupList_length_le (l : List BPair) : (dedupList l).length ≤ l.length := by
+  induction l with
+  | nil => simp [dedupList]
+  | cons x xs ih =>
+    unfold dedupList
+    split
+    · simp; omega
+    · simp; omega
+
+theorem difference_length_le (ps other : List BPair) : (difference ps other).length ≤ ps.length :=
+  Nat.le_trans (dedupList_length_le _) (List.length_filter_le _ _)
+
+theorem coverage_bounds (ps diff : List BPair) (h : diff.length ≤ ps.length) :
+    0 ≤ coverage ps diff ∧ coverage ps diff ≤ 1 := by
+  unfold coverage
+  split
+  · rename_i hp
+    have hp' : (0 : Rat) < (ps.length : Rat) := by exact_mod_cast hp
+    have h1 : (0 : Rat) ≤ ((ps.length - diff.length : Int) : Rat) := by
+      have : (0 : Int) ≤ (ps.length - diff.length : Int) := by omega
+      exact_mod_cast this
+    have h2 : ((ps.length - diff.length : Int) : Rat) ≤ (ps.length : Rat) := by
+      have : (ps.length - diff.length : Int) ≤ (ps.length : Int) := by omega
+      exact_mod_cast this
+    exact ⟨div_nonneg h1 (le_of_lt hp'), (div_le_one hp').2 h2⟩
+  · exact ⟨by norm_num, le_refl _⟩
+
+theorem identity_bounds {M} (hM : MatcherOK M) (a b : List BPair) :
+    0 ≤ identity M a b ∧ identity M a b ≤ 1 := by
+  unfold identity
+  split
+  · exact ⟨by norm_num, le_refl _⟩
+  · rename_i hp
+    have hp' : (0 : Rat) < ((a.length + b.length : Nat) : Rat) := by
+      have : 0 < a.length + b.length := by omega
+      exact_mod_cast this
+    have hm := hM.le_min a b
+    have h2 : 2 * M a b ≤ a.length + b.length := by omega
+    refine ⟨div_nonneg (by exact_mod_cast Nat.zero_le _) (le_of_lt hp'), (div_le_one hp').2 ?_⟩
+    exact_mod_cast h2
+
+theorem compareRow_bounds (flag : Bool) {M} (hM : MatcherOK M) (a1 a2 : BAl) :
+    let r := compareRow flag M a1 a2
+    0 ≤ r.ident ∧ r.ident ≤ 1 ∧ 0 ≤ r.cov1 ∧ r.cov1 ≤ 1 ∧ 0 ≤ r.cov2 ∧ r.cov2 ≤ 1 := by
+  simp only [compareRow]
+  obtain ⟨i1, i2⟩ := identity_bounds hM (combine flag a1.pairs a2.pairs) (combine flag a2.pairs a1.pairs)
+  obtain ⟨c1, c2⟩ := coverage_bounds _ _ (difference_length_le (combine flag a1.pairs a2.pairs) (combine flag a2.pairs a1.pairs))
+  obtain ⟨c3, c4⟩ := coverage_bounds _ _ (difference_length_le (combine flag a2.pairs a1.pairs) (combine flag a1.pairs a2.pairs))
+  exact ⟨i1, i2, c1, c2, c3, c4⟩
+
+theorem mem_bothRows {flag M d1 d2 r} (h : r ∈ bothRows flag M d1 d2) :
+    ∃ k a1 a2, (k, a1) ∈ d1 ∧ dictGet? d2 k = some a2 ∧ r = compareRow flag M a1 a2 := by
+  simp only [bothRows, List.mem_filterMap] at h
+  obtain ⟨⟨k, a1⟩, hm, h⟩ := h
+  cases hg : dictGet? d2 k with
+  | none => simp [hg] at h
+  | some a2 => simp [hg] at h; exact ⟨k, a1, a2, hm, hg, h.symm⟩
+
+theorem mem_allRows {flag M as1 as2 r} (h : r ∈ allRows flag M as1 as2) :
+    r ∈ bothRows flag M (toDict as1) (toDict as2) ∨ r ∈ onlyRows .firstOnly (toDict as1) (toDict as2) ∨
+      r ∈ onlyRows .secondOnly (toDict as2) (toDict as1) := by
+  simpa [allRows, or_assoc] using h
+
+/-! ### reflexivity -/
+
+theorem groupByQ_eq (ps : List BPair) : groupByQ ps = groupAdj (fun p => p.2) ps := by
+  induction ps with
+  | nil => rfl
+  | cons x xs ih =>
+    simp only [groupByQ, groupAdj, ih]
+    generalize groupAdj (fun p : BPair => p.2) xs = L
+    rcases L with _ | ⟨(_ | ⟨y, g⟩), gs⟩ <;> rfl
+
+theorem combine_self (flag : Bool) (ps : List BPair) : combine flag ps ps = ps := by
+  unfold combine
+  cases flag
+  · rfl
+  · simp only [Bool.not_true, Bool.false_eq_true, if_false]
+    have : ∀ g ∈ groupByQ ps, (fun g : List BPair =>
+        let kept := g.filter fun a => ps.contains a
+        if kept.isEmpty then g else kept) g = id g := by
+      intro g hg
+      rw [groupByQ_eq] at hg
+      have : g.filter (fun a => ps.contains a) = g := by
+        apply filter_eq_self_of
+        intro x hx
+        simpa using mem_of_mem_groupAdj _ ps g x hg hx
+      simp only [this, id]
+      split <;> rfl
+    rw [List.flatMap_congr this, List.flatMap_id, groupByQ_eq, groupAdj_flatten]
+
+theorem difference_self (ps : List BPair) : difference ps ps = [] := by
+  unfold difference
+  rw [filter_eq_nil_of]
+  · rfl
+  · intro x hx; simpa using hx
+
+theorem coverage_nil (ps : List BPair) : coverage ps [] = 1 := by
+  unfold coverage
+  split
+  · rename_i hp
+    have hp' : (0 : Rat) < (ps.length : Rat) := by exact_mod_cast hp
+    simp only [List.length_nil, Int.natCast_zero, Int.sub_zero, Int.cast_natCast]
+    exact div_self (ne_of_gt hp')
+  · rfl
+
+theorem identity_self {M} (hM : MatcherOK M) (a : List BPair) : identity M a a = 1 := by
+  unfold identity
+  split
+  · rfl
+  · rename_i hp
+    have hp' : (0 : Rat) < ((a.length + a.length : Nat) : Rat) := by
+      have : 0 < a.length + a.length := by omega
+      exact_mod_cast this
+    rw [hM.refl, Nat.two_mul]
+    exact div_self (ne_of_gt hp')
+
+theorem compareRow_self (flag : Bool) {M} (hM : MatcherOK M) (a : BAl) :
+    let r := compareRow flag M a a
+    r.type = .both ∧ r.ident = 1 ∧ r.cov1 = 1 ∧ r.cov2 = 1 ∧ r.diff1 = [] ∧ r.diff2 = [] := by
+  simp only [compareRow, combine_self, difference_self, coverage_nil, identity_self hM, and_self]
+
+theorem bothRows_self (flag M) (d : List (Key × BAl)) (hd : (keys d).Nodup) :
+    bothRows flag M d d = d.map fun e => compareRow flag M e.2 e.2 := by
+  unfold bothRows
+  rw [← List.filterMap_eq_map]
+  apply List.filterMap_congr
+  intro ⟨k, a⟩ h
+  simp [dictGet?_of_mem d hd k a h]
+
+theorem onlyRows_self (t) (d : List (Key × BAl)) : onlyRows t d d = [] := by
+  unfold onlyRows
+  rw [filter_eq_nil_of]
+  · rfl
+  · intro ⟨k, a⟩ h
+    simp only [dictGet?_isNone, Bool.not_eq_false', List.contains_iff_mem]
+    exact List.mem_map.2 ⟨(k, a), h, rfl⟩
+
+/-! ### swapping -/
+
+theorem identity_pos_iff (M : List BPair → List BPair → Nat) (a b : List BPair) :
+    0 < identity M a b ↔ (a.length + b.length = 0 ∨ 0 < M a b) := by
+  unfold identity
+  split
+  · rename_i h; simp [h]
+  · rename_i hp
+    have hp' : (0 : Rat) < ((a.length + b.length : Nat) : Rat) := by
+      have : 0 < a.length + b.length := by omega
+      exact_mod_cast this
+    rw [div_pos_iff_of_pos_right hp', Nat.cast_pos]
+    constructor
+    · intro h; right; omega
+    · rintro (h | h)
+      · exact absurd h hp
+      · omega
+
+theorem compareRow_overlapping_swap (flag : Bool) {M} (hM : MatcherOK M) (a1 a2 : BAl) :
+    (compareRow flag M a1 a2).overlapping = (compareRow flag M a2 a1).overlapping := by
+  simp only [RowCmp.overlapping, compareRow, gt_iff_lt]
+  apply decide_eq_decide.2
+  rw [identity_pos_iff, identity_pos_iff, hM.symm_pos, Nat.add_comm]
+
+/-- number of common keys whose two values satisfy `f` -/
+def cnt (f : BAl → BAl → Bool) (d1 d2 : List (Key × BAl)) : Nat :=
+  ((keys d1).filter fun k => (dictGet? d1 k).any fun a1 => (dictGet? d2 k).any fun a2 => f a1 a2).length
+
+theorem bothRows_filter_length (flag M) (p : RowCmp → Bool) (d1 d2 : List (Key × BAl)) (hd1 : (keys d1).Nodup) :
+    ((bothRows flag M d1 d2).filter p).length = cnt (fun a1 a2 => p (compareRow flag M a1 a2)) d1 d2 := by
+  simp only [bothRows, cnt, List.filter_filterMap, length_filterMap_eq, keys, List.filter_map, List.length_map]
+  congr 1
+  apply List.filter_congr
+  intro ⟨k, a1⟩ h
+  simp only [Function.comp, dictGet?_of_mem d1 hd1 k a1 h, Option.any_some]
+  cases dictGet? d2 k with
+  | none => rfl
+  | some a2 =>
+    simp only [Option.map_some, Option.any_some]
+    cases hp : p (compareRow flag M a1 a2) <;> simp [Option.filter, hp]
+
+theorem cnt_swap (f g : BAl → BAl → Bool) (hfg : ∀ a1 a2, f a1 a2 = g a2 a1) (d1 d2 : List (Key × BAl))
+    (hd1 : (keys d1).Nodup) (hd2 : (keys d2).Nodup) : cnt f d1 d2 = cnt g d2 d1 := by
+  unfold cnt
+  apply List.Perm.length_eq
+  rw [List.perm_ext_iff_of_nodup (hd1.filter _) (hd2.filter _)]
+  intro k
+  simp only [List.mem_filter]
+  have e1 := dictGet?_isSome d1 k
+  have e2 := dictGet?_isSome d2 k
+  simp only [List.contains_eq_mem] at e1 e2
+  cases h1 : dictGet? d1 k with
+  | none => cases h2 : dictGet? d2 k <;> simp
+  | some a1 =>
+    cases h2 : dictGet? d2 k with
+    | none => simp
+    | some a2 =>
+      rw [h1] at e1; rw [h2] at e2
+      simp only [Option.isSome_some, true_eq_decide_iff] at e1 e2
+      simp [e1, e2, hfg]
+
+end Coma.Proofs.Compare
+
+namespace Coma.Proofs
+open Coma Coma.Spec Coma.Proofs.Compare
+
 theorem keysOf_spec (as : List BAl) :
-    ((toDict as).map (·.1)).Nodup ∧ ∀ k, k ∈ (toDict as).map (·.1) ↔ ∃ a ∈ as, a.key = k := by
-  sorry
+    ((toDict as).map (·.1)).Nodup ∧ ∀ k, k ∈ (toDict as).map (·.1) ↔ ∃ a ∈ as, a.key = k :=
+  toDict_spec as
 
 theorem compare_partition (flag : Bool) (M : List BPair → List BPair → Nat) (as1 as2 : List BAl) :
     let c := compareSets flag M as1 as2
@@ -15,31 +452,90 @@ theorem compare_partition (flag : Bool) (M : List BPair → List BPair → Nat) 
     c.secondOnly = (k2.filter (fun k => !k1.contains k)).length ∧
     c.overlapping + c.nonOverlapping + c.firstOnly + c.secondOnly =
       k1.length + (k2.filter (fun k => !k1.contains k)).length := by
-  sorry
+  intro c k1 k2
+  obtain ⟨h1, h2, h3, h4⟩ := counts flag M as1 as2
+  have hA : c.overlapping + c.nonOverlapping = (k1.filter (fun k => k2.contains k)).length := by
+    show (compareSets flag M as1 as2).overlapping + (compareSets flag M as1 as2).nonOverlapping = _
+    rw [h1, h2, filter_not_add, bothRows_length]
+  have hB : c.firstOnly = (k1.filter (fun k => !k2.contains k)).length := by
+    show (compareSets flag M as1 as2).firstOnly = _
+    rw [h3, onlyRows_length]
+  have hC : c.secondOnly = (k2.filter (fun k => !k1.contains k)).length := by
+    show (compareSets flag M as1 as2).secondOnly = _
+    rw [h4, onlyRows_length]
+  refine ⟨hA, hB, hC, ?_⟩
+  rw [hA, hB, hC, filter_not_add]
 
 theorem compare_bounds (flag : Bool) (M : List BPair → List BPair → Nat) (hM : MatcherOK M) (as1 as2 : List BAl) :
     ∀ r ∈ (compareSets flag M as1 as2).rows,
       0 ≤ r.ident ∧ r.ident ≤ 1 ∧ 0 ≤ r.cov1 ∧ r.cov1 ≤ 1 ∧ 0 ≤ r.cov2 ∧ r.cov2 ≤ 1 := by
-  sorry
+  intro r hr
+  rw [rows_eq] at hr
+  rcases mem_allRows hr with h | h | h
+  · obtain ⟨k, a1, a2, _, _, rfl⟩ := mem_bothRows h
+    exact compareRow_bounds flag hM a1 a2
+  · obtain ⟨_, e1, e2, e3⟩ := onlyRows_type r h
+    rw [e1, e2, e3]; norm_num
+  · obtain ⟨_, e1, e2, e3⟩ := onlyRows_type r h
+    rw [e1, e2, e3]; norm_num
+
+theorem compareRow_swap (flag : Bool) (M : List BPair → List BPair → Nat) (a1 a2 : BAl) :
+    (compareRow flag M a1 a2).cov1 = (compareRow flag M a2 a1).cov2 ∧
+    (compareRow flag M a1 a2).cov2 = (compareRow flag M a2 a1).cov1 ∧
+    (compareRow flag M a1 a2).diff1 = (compareRow flag M a2 a1).diff2 ∧
+    (compareRow flag M a1 a2).diff2 = (compareRow flag M a2 a1).diff1 :=
+  ⟨rfl, rfl, rfl, rfl⟩
 
 theorem compare_reflexive (flag : Bool) (M : List BPair → List BPair → Nat) (hM : MatcherOK M) (as : List BAl) :
     let c := compareSets flag M as as
     c.firstOnly = 0 ∧ c.secondOnly = 0 ∧ c.nonOverlapping = 0 ∧ c.overlapping = ((toDict as).map (·.1)).length ∧
     ∀ r ∈ c.rows, r.type = .both ∧ r.ident = 1 ∧ r.cov1 = 1 ∧ r.cov2 = 1 ∧ r.diff1 = [] ∧ r.diff2 = [] := by
-  sorry
+  intro c
+  obtain ⟨h1, h2, h3, h4⟩ := counts flag M as as
+  have hd := (toDict_spec as).1
+  have hrow : ∀ r ∈ bothRows flag M (toDict as) (toDict as),
+      r.type = .both ∧ r.ident = 1 ∧ r.cov1 = 1 ∧ r.cov2 = 1 ∧ r.diff1 = [] ∧ r.diff2 = [] := by
+    intro r hr
+    rw [bothRows_self flag M _ hd, List.mem_map] at hr
+    obtain ⟨e, _, rfl⟩ := hr
+    exact compareRow_self flag hM e.2
+  have hov : ∀ r ∈ bothRows flag M (toDict as) (toDict as), r.overlapping = true := by
+    intro r hr
+    simp [RowCmp.overlapping, (hrow r hr).2.1]
+  refine ⟨?_, ?_, ?_, ?_, ?_⟩
+  · show (compareSets flag M as as).firstOnly = 0
+    rw [h3, onlyRows_self]; rfl
+  · show (compareSets flag M as as).secondOnly = 0
+    rw [h4, onlyRows_self]; rfl
+  · show (compareSets flag M as as).nonOverlapping = 0
+    rw [h2, filter_eq_nil_of]
+    · rfl
+    · intro r hr; simp [hov r hr]
+  · show (compareSets flag M as as).overlapping = _
+    rw [h1, filter_eq_self_of _ _ hov, bothRows_self flag M _ hd]
+    simp
+  · intro r hr
+    have hr' : r ∈ allRows flag M as as := hr
+    rw [allRows, onlyRows_self, onlyRows_self, List.append_nil, List.append_nil] at hr'
+    exact hrow r hr'
 
 theorem compare_swap_counts (flag : Bool) (M : List BPair → List BPair → Nat) (hM : MatcherOK M) (as1 as2 : List BAl) :
     (compareSets flag M as1 as2).firstOnly = (compareSets flag M as2 as1).secondOnly ∧
     (compareSets flag M as1 as2).secondOnly = (compareSets flag M as2 as1).firstOnly ∧
     (compareSets flag M as1 as2).overlapping = (compareSets flag M as2 as1).overlapping ∧
     (compareSets flag M as1 as2).nonOverlapping = (compareSets flag M as2 as1).nonOverlapping := by
-  sorry
-
-theorem compareRow_swap (flag : Bool) (M : List BPair → List BPair → Nat) (a1 a2 : BAl) :
-    (compareRow flag M a1 a2).cov1 = (compareRow flag M a2 a1).cov2 ∧
-    (compareRow flag M a1 a2).cov2 = (compareRow flag M a2 a1).cov1 ∧
-    (compareRow flag M a1 a2).diff1 = (compareRow flag M a2 a1).diff2 ∧
-    (compareRow flag M a1 a2).diff2 = (compareRow flag M a2 a1).diff1 := by
-  sorry
+  obtain ⟨h1, h2, h3, h4⟩ := counts flag M as1 as2
+  obtain ⟨g1, g2, g3, g4⟩ := counts flag M as2 as1
+  have hd1 := (toDict_spec as1).1
+  have hd2 := (toDict_spec as2).1
+  refine ⟨?_, ?_, ?_, ?_⟩
+  · rw [h3, g4, onlyRows_length, onlyRows_length]
+  · rw [h4, g3, onlyRows_length, onlyRows_length]
+  · rw [h1, g1, bothRows_filter_length _ _ _ _ _ hd1, bothRows_filter_length _ _ _ _ _ hd2]
+    exact cnt_swap _ _ (fun a1 a2 => compareRow_overlapping_swap flag hM a1 a2) _ _ hd1 hd2
+  · rw [h2, g2, bothRows_filter_length _ _ _ _ _ hd1, bothRows_filter_length _ _ _ _ _ hd2]
+    exact cnt_swap _ _ (fun a1 a2 => by
+      show (!(compareRow flag M a1 a2).overlapping) = !(compareRow flag M a2 a1).overlapping
+      rw [compareRow_overlapping_swap flag hM a1 a2]) _ _ hd1 hd2
 
 end Coma.Proofs
